@@ -132,7 +132,7 @@ def _install():
             return True
         P = np.linalg.pinv(M0)
         round_tol = 5e-4 * np.abs(P).sum(axis=1)[:len(keys)]          # worst case of rounding every entry of b
-        if round_tol.max() > 0.05:
+        if round_tol.max() > 0.3:      # still a valid worst-case bound; above this even gross errors could hide
             c["skip"] = "rounding-bound-too-coarse"
             return True
         solver_tol = {None: 1e-9, "lsq": 1e-5, "lsq_linear": 1e-4}[method] * (1 + 1 / s.min())
@@ -156,7 +156,12 @@ def _install():
             mech_known = None
         else:
             Mq, rq = _method_system(A_code, v_true, method)
-            z, _ = fb.nnls_ref(Mq, rq.round(3))
+            if getattr(fm, "_verif", {}).get("path") == "inv" and Mq.shape[0] == Mq.shape[1]:
+                # the square system was solved by direct inversion and the result accepted (with all defaults negative
+                # values are not rejected): the defect-aware reference is the exact solution of the assembled system
+                z = np.linalg.solve(Mq, rq.round(3))
+            else:
+                z, _ = fb.nnls_ref(Mq, rq.round(3))
             ref = z[:-1]
             sq = np.linalg.svd(Mq, compute_uv=False)
             Pq = np.linalg.pinv(Mq)
@@ -193,8 +198,15 @@ def _one(rng, target, mon, sigs, hist, metrics):
     from fv.gen import scen, series, tissue
     from fv.oracle import fb
     import forsys as fs
-    at = scen.base_tissue(rng, "arc", ncells=int(rng.integers(8, 36)))
-    at, _ = scen.maybe_sub(rng, at, p=0.2, min_cells=6)
+    if rng.random() < 0.12:
+        # a cell ringed by n cells: n junctions and 2n interfaces, i.e. a SQUARE system (solved by direct inversion)
+        from fv.gen import tissue as _tissue
+        at = _tissue.bulge(rng, _tissue.lattice("rosette", int(rng.integers(3, 10)), int(rng.integers(9)),
+                                                a=float(10 ** rng.uniform(-0.5, 0.5))), 0.3)
+        hist["rosette"] = hist.get("rosette", 0) + 1
+    else:
+        at = scen.base_tissue(rng, "arc", ncells=int(rng.integers(8, 36)))
+        at, _ = scen.maybe_sub(rng, at, p=0.2, min_cells=6)
     if rng.random() < 0.5:
         at = at.similarity(theta=rng.uniform(0, 6.28), scale=10 ** rng.uniform(-0.3, 0.7))
     method = [None, "lsq", "lsq_linear"][int(rng.integers(3))]
@@ -298,7 +310,12 @@ def _one(rng, target, mon, sigs, hist, metrics):
                     pass
                 CTX["cur"] = cur
                 hist["adimensional-solve-first"] = hist.get("adimensional-solve-first", 0) + 1
-            solver.solve_stress(when=ti, b_matrix="velocity", allow_negatives=False, **kw)
+            if method is None and rng.random() < 0.4:
+                # all defaults (negative values are then not rejected; the true solution has none)
+                hist["all-defaults"] = hist.get("all-defaults", 0) + 1
+                solver.solve_stress(when=ti, b_matrix="velocity")
+            else:
+                solver.solve_stress(when=ti, b_matrix="velocity", allow_negatives=False, **kw)
         except Exception as exc:
             import traceback
             mon.fail("raises", "dynamic inference returns a result", exc=repr(exc)[:200], method=method, target=target,
